@@ -230,13 +230,20 @@ def brute(rng, tier):
             permt = torch.randperm(tp.shape[0], generator=g); tp = tp[permt]
             gid = torch.arange(ng).repeat_interleave(sgrp)[permt]
             want = torch.stack([tp[gid == gid[i]].mean(0) for i in range(tp.shape[0])])
-            for use_r in (None, 5.0):
+            for use_r in (None, 5.0, 0.0):          # radius 0: the coincident members are the only points within the radius - all are retained
                 try:
                     o = pp.knn_filter(tp, sgrp - 1, pdim=dd, radius=use_r, ord=ord_); evals += 1
                     if o.shape != want.shape or not torch.allclose(o, want, atol=1e-9):
-                        fails.append(dict(clause='knn_filter_coincident_points', signature=f'group={sgrp},radius={"yes" if use_r else "no"},ord={ord_}', groups=ng, pdim=dd))
+                        fails.append(dict(clause='knn_filter_coincident_points', signature=f'group={sgrp},radius={use_r},ord={ord_}', groups=ng, pdim=dd))
                 except Exception as e:
                     fails.append(dict(clause='knn_filter_raises', signature=f'coincident points, group={sgrp},radius={use_r}', error=f'{type(e).__name__}: {e}'[:120]))
+            # ... and in a cloud WITHOUT coincident points nothing has a neighbour within radius 0: the result is empty
+            try:
+                oe = pp.knn_filter(tp[gid != gid[0]][::sgrp] if False else centres.repeat(1, 1), 1, radius=0.0, ord=ord_); evals += 1
+                if oe.shape[0] != 0:
+                    fails.append(dict(clause='knn_filter_radius_zero_retains_nothing_without_duplicates', signature=f'ord={ord_}', returned=int(oe.shape[0])))
+            except Exception as e:
+                fails.append(dict(clause='knn_filter_raises', signature='radius 0, no duplicates', error=f'{type(e).__name__}: {e}'[:120]))
         # voxel_filter
         vox = [float(rng.choice([0.5, 1.0, 3.0])) for _ in range(min(d, 3))]
         vd = len(vox)
